@@ -451,3 +451,27 @@ Proof.
   { intros h. apply memo_call_sound. apply replay_sound. intros k' v'. cbn. discriminate. }
   rewrite !E. reflexivity.
 Qed.
+
+(* ------------------------------------------------------------------ *)
+(* short-circuiting all(): the RESULT is arrangement-independent (forallb_perm), the set of
+   evaluated elements is not -- unless every element passes *)
+Lemma all_trace_total : forall p s, forallb p s = true -> all_trace p s = s.
+Proof.
+  intros p s. induction s as [|x t IH]; cbn; [reflexivity|].
+  intros H. apply andb_true_iff in H. destruct H as [Hx Ht]. rewrite Hx. f_equal. apply IH. exact Ht.
+Qed.
+
+Lemma all_trace_prefix : forall p s, exists rest, s = all_trace p s ++ rest.
+Proof.
+  intros p s. induction s as [|x t [rest IH]]; cbn.
+  - exists []. reflexivity.
+  - destruct (p x).
+    + exists rest. cbn. f_equal. exact IH.
+    + exists t. reflexivity.
+Qed.
+
+Lemma all_trace_refuted : exists p s s', Permutation s s' /\ ~ Permutation (all_trace p s) (all_trace p s').
+Proof.
+  exists (fun x => negb (N.eqb x 2)), [1%N; 2%N], [2%N; 1%N]. split; [apply perm_swap|].
+  cbn. intros H. apply Permutation_length in H. cbn in H. discriminate.
+Qed.
